@@ -628,9 +628,13 @@ pub fn run(ctx: &Ctx, evidence: Option<&PathBuf>) -> i32 {
     ctx.gate("thread_runs_checked", 10);
     ctx.gate("retries_with_grown_buffer", 50);
     ctx.gate("reads_abandoned_before_close", 20);
+    if !ctx.miri() {
+        ctx.gate("clones_made_while_a_record_was_in_flight", 50);
+    }
     ctx.finish(
         "exploration",
-        "Run A (deterministic): Request::new + 1..3 StreamWriters (stdout, stderr, a clone) each on its own executor task issuing single poll_write calls of {0,1,7,8,9,16,255,1000,4096,65535,65536,100000} bytes and poll_flush, \
+        "Run A (deterministic): Request::new + 1..3 StreamWriters (stdout, stderr, a clone) each on its own executor task issuing single poll_write calls of {0,1,7,8,9,16,255,1000,4096,65535,65536,100000} bytes and poll_flush \
+         (a third of the cases: one writer clones itself while its poll_write is Pending, i.e. with a record in flight, and the clone then writes a record of its own), \
          plus the request's own task reading the input (Stdin records interleaved with GetValues / unknown-type queries) so that replies are flushed through the shared output lock, then close(status); transport accepts any 1..n bytes of the vectored slices or Pending; all poll orders a seeded scheduler produces. \
          Run B: the same writers on 3 OS threads (park/unpark block_on) against the mutex-protected transport while the main thread reads; also the TSan / Miri workload. \
          Oracle on the decoded byte log: sequence of complete records, stream records carry the request id, padding < 8 and content+padding = 0 mod 8; every Ready(Ok(n)) has n = min(len, 65535) and corresponds to exactly one record of the writer's type whose payload is exactly those n bytes (payload bytes encode writer id + sequence), per-writer order preserved, no other stream bytes, empty writes emit nothing; \
